@@ -409,3 +409,133 @@ def c16_structural(report, cfgs):
     pad = [tk for tk, d in fc.types.items() if d.get("kind") == "union" and d.get("krate") == "verif_controls" and has_padding(fc, tk)]
     report.floor("positive control: padded union recognised", len(pad), 1)
     return n_inst
+
+
+# ------------------------------------------------------------------------------------------ C17
+
+COUNTER_FIELDS = {"block_counter", "datalen", "t", "len"}
+HASH_CRATES = {"blake_hash", "groestl_aesni", "jh_x86_64", "skein_hash", "verif_controls"}
+
+
+def narrowing_of_lengths(f, key, inst):
+    """Narrowing integer casts applied to values that derive (def-use inside the body) from a slice
+    length or from a counter field of a hasher state.  -> list of descriptions"""
+    body = inst["body"]
+    tainted = set()
+    out = []
+
+    def op_local(op):
+        pl = op.get("copy") or op.get("move")
+        return pl["local"] if pl is not None else None
+
+    def place_is_counter(pl):
+        # field projection named like a counter on a workspace struct
+        t = body["locals"][pl["local"]]
+        cur = t
+        hit = False
+        for e in pl["proj"]:
+            d = f.types.get(cur)
+            if d is None:
+                return hit
+            if e["k"] == "deref":
+                cur = d.get("pointee", cur)
+            elif e["k"] == "field":
+                if d["kind"] == "struct" and d.get("krate") in HASH_CRATES:
+                    name = d["variants"][0]["fields"][e["i"]]["name"]
+                    if name in COUNTER_FIELDS:
+                        hit = True
+                cur = e["ty"]
+            else:
+                return hit
+        return hit
+
+    changed = True
+    rounds = 0
+    while changed and rounds < 8:
+        changed = False
+        rounds += 1
+        for b in body["blocks"]:
+            for st in b["stmts"]:
+                if st["k"] != "assign" or st["place"]["proj"]:
+                    continue
+                dst = st["place"]["local"]
+                rv = st["rv"]
+                srcs = []
+                if rv["k"] in ("use", "cast"):
+                    srcs = [rv["op"]]
+                elif rv["k"] == "binop":
+                    srcs = [rv["a"], rv["b"]]
+                elif rv["k"] == "unop":
+                    srcs = [rv["a"]]
+                t_in = False
+                for op in srcs:
+                    pl = op.get("copy") or op.get("move")
+                    if pl is None:
+                        continue
+                    if (not pl["proj"] and pl["local"] in tainted) or place_is_counter(pl):
+                        t_in = True
+                if t_in and dst not in tainted:
+                    tainted.add(dst)
+                    changed = True
+            t = b["term"]
+            if t["k"] == "call" and "callee" in t and not t["dest"]["proj"]:
+                d = t["callee"].get("resolved_def", t["callee"]["def"])
+                if d in ("core::slice::<impl [T]>::len",) or d.endswith("BlockBuffer::<BlockSize>::position") and False:
+                    if t["dest"]["local"] not in tainted:
+                        tainted.add(t["dest"]["local"])
+                        changed = True
+    for b in body["blocks"]:
+        for st in b["stmts"]:
+            if st["k"] == "assign" and st["rv"]["k"] == "cast" and st["rv"]["cast"] == "int_to_int":
+                rv = st["rv"]
+                tf, tt = f.types[rv["from"]], f.types[rv["to"]]
+                if tf["kind"] == "int" and tt["kind"] == "int" and tt["bits"] < tf["bits"]:
+                    pl = rv["op"].get("copy") or rv["op"].get("move")
+                    if pl is not None and ((not pl["proj"] and pl["local"] in tainted) or place_is_counter(pl)):
+                        out.append("%s -> %s at line %s" % (rv["from"], rv["to"], st.get("line")))
+    return out
+
+
+def c17_structural(report):
+    f = facts.load("K1")
+    n = 0
+    for k, inst in workspace_instances(f):
+        if f.defs[inst["def"]]["krate"] not in HASH_CRATES:
+            continue
+        n += 1
+        for what in narrowing_of_lengths(f, k, inst):
+            report.violated("R17.2", "%s:%s" % (k, what.split(" at ")[0]),
+                            "%s narrows a length / counter value (%s): counts beyond 2^32 would be lost" % (short(k), what))
+    report.ok("R17.2", "no narrowing cast on slice lengths or counter fields in %d hash-crate instances" % n)
+    report.extra["hash_instances_scanned"] = n
+    # counter fields are 64-bit (or pairs of words for BLAKE)
+    want = {"blake_hash::Blake224": ("t", "(u32, u32)"), "blake_hash::Blake256": ("t", "(u32, u32)"),
+            "blake_hash::Blake384": ("t", "(u64, u64)"), "blake_hash::Blake512": ("t", "(u64, u64)"),
+            "groestl_aesni::Groestl256": ("block_counter", "u64"), "groestl_aesni::Groestl512": ("block_counter", "u64"),
+            "jh_x86_64::Jh224": ("datalen", "usize"), "jh_x86_64::Jh256": ("datalen", "usize"),
+            "jh_x86_64::Jh384": ("datalen", "usize"), "jh_x86_64::Jh512": ("datalen", "usize")}
+    for t, (fld, ty) in want.items():
+        d = f.types.get(t)
+        got = None
+        if d:
+            for fl in d["variants"][0]["fields"]:
+                if fl["name"] == fld:
+                    got = fl["ty"]
+        if got == ty and (ty != "usize" or f.types["usize"]["bits"] == 64):
+            report.ok("R17.3", "%s.%s : %s" % (t, fld, ty))
+        else:
+            report.violated("R17.3", "%s.%s" % (t, fld), "counter field %s.%s has type %s, expected %s (64-bit exact counting)" % (t, fld, got, ty))
+    for k, d in f.types.items():
+        if k.startswith("skein_hash::State<"):
+            tt = [fl["ty"] for fl in d["variants"][0]["fields"] if fl["name"] == "t"]
+            if tt == ["(u64, u64)"]:
+                report.ok("R17.3", "%s.t : (u64, u64)" % facts.abbrev(k)[:60])
+            else:
+                report.violated("R17.3", facts.abbrev(k)[:60], "Skein tweak words are %s, expected (u64, u64)" % tt)
+    # positive control
+    fc = facts.load("CONTROLS", "verif_controls")
+    hits = 0
+    for k, inst in workspace_instances(fc):
+        hits += len(narrowing_of_lengths(fc, k, inst))
+    report.floor("positive control: narrowing of a length recognised", hits, 1)
+    return n
